@@ -400,6 +400,40 @@ def _w_size_specifier_is_constant(repo):
     return bool(rhs) and all(r[-1] == "numeric-constant" for r in rhs)
 
 
+def _dominating_guards(m, f, call, attr):
+    """Conditions under which `call` (a statement-level helper call in f) is skipped: enclosing if/loop tests and
+    earlier `if ...: return` statements.  A guard that only skips nodes whose `attr` is unset is not a skip of the
+    requirement and is left out."""
+    st = call
+    while not isinstance(st, ast.stmt):
+        st = m.parent(st)
+    out = []
+
+    def benign(test):
+        t = test.operand if isinstance(test, ast.UnaryOp) and isinstance(test.op, ast.Not) else test
+        return isinstance(t, ast.Call) and isinstance(t.func, ast.Attribute) and t.func.attr in ("has_field", "HasField") \
+            and t.args and isinstance(t.args[0], ast.Constant) and t.args[0].value == attr
+
+    cur = st
+    while cur is not f.node:
+        par = m.parent(cur)
+        if par is None:
+            break
+        for fld in ("body", "orelse"):
+            blk = getattr(par, fld, None)
+            if isinstance(blk, list) and cur in blk:
+                for prev in blk[:blk.index(cur)]:
+                    if isinstance(prev, ast.If) and any(isinstance(x, (ast.Return, ast.Continue, ast.Raise)) for x in ast.walk(prev)) \
+                            and not benign(prev.test):
+                        out.append(f"skipped when `{ast.unparse(prev.test)}`")
+                if isinstance(par, ast.If) and not benign(par.test):
+                    out.append(f"only when `{ast.unparse(par.test)}` is {'true' if fld == 'body' else 'false'}")
+                elif isinstance(par, (ast.For, ast.While)):
+                    out.append("inside a loop")
+        cur = par
+    return out
+
+
 def poscheck(repo, schema=None, sites=None):
     from . import traversal as T
     res = RuleResult("R-POSCHECK")
@@ -417,6 +451,7 @@ def poscheck(repo, schema=None, sites=None):
         raise AnalysisError(f"only {len(positions)} expression positions in the schema")
     # requirement sites in type_check
     req_sites = []  # (func, last attr, call)
+    call_nodes = {}  # (func fq, attr) -> helper call on <param>.<attr>
     for f in tc.funcs.values():
         for n in walk_no_nested_funcs(f.node):
             if isinstance(n, ast.Call):
@@ -428,6 +463,8 @@ def poscheck(repo, schema=None, sites=None):
                             x = x.value
                         if isinstance(x, ast.Attribute):
                             req_sites.append((f, x.attr, "helper " + cn))
+                            if isinstance(x.value, ast.Name) and cn.startswith("_type_check_") and len(n.args) >= 1 and a is n.args[0]:
+                                call_nodes[(f.fq, x.attr)] = n
                         elif isinstance(x, ast.Name):
                             req_sites.append((f, "<self>", "helper " + cn))
             if isinstance(n, ast.Compare):
@@ -471,6 +508,19 @@ def poscheck(repo, schema=None, sites=None):
         if found:
             if len(res.samples) < 3:
                 res.samples.append(f"{cls}.{fname}: {found[0][0].name} ({found[0][1]})")
+            # the positional requirement holds for every node of the class: the helper call is not skipped for some of them
+            direct = [(f, call_nodes[(f.fq, fname)]) for f, how in found if (f.fq, fname) in call_nodes]
+            if direct and len(direct) == len(found):
+                blocked = []
+                for f, call in direct:
+                    g = _dominating_guards(tc, f, call, fname)
+                    if g:
+                        blocked.append((f, call, g))
+                if len(blocked) == len(direct):
+                    f, call, g = blocked[0]
+                    res.add(f"{cls}.{fname}|conditional", f"{f.name} requires the type of {cls}.{fname} only under a condition "
+                            f"({'; '.join(g)}): for the other {cls} nodes an expression of any type is accepted in that position",
+                            tc.rel, call.lineno, f.name)
             continue
         res.add(f"{cls}.{fname}", f"no positional type requirement for {cls}.{fname}: an expression of any type is "
                 f"accepted in that position (e.g. a boolean or an enum where an integer is needed)", tc.rel, 0, "check_types")
